@@ -20,20 +20,28 @@ from sa import cfacts
 from sa.core import AnalysisError
 
 
+INCOMING, CONST, ARITH = "incoming", "const", "arith"
+
+
 class Val:
+    """src: where the number can come from -- the INCOMING array element itself (possibly inf/nan),
+    a CONST literal/bound, or ARITHmetic on an incoming element (0 * inf = nan).
+    guards: bounds (value id, 'lo'|'hi') that are known to hold whenever the value is the incoming
+    element rather than a constant (the conditions under which it was *selected*)."""
     _n = 0
 
-    def __init__(self, lo=False, hi=False, vid=None, what=""):
+    def __init__(self, lo=False, hi=False, vid=None, what="", src=(INCOMING,), guards=()):
         if vid is None:
             Val._n += 1
             vid = Val._n
         self.id, self.lo, self.hi, self.what = vid, lo, hi, what
+        self.src, self.guards = frozenset(src), frozenset(guards)
 
     def refined(self, facts):
         f = facts.get(self.id)
         if not f:
             return self
-        return Val(self.lo or "lo" in f, self.hi or "hi" in f, self.id, self.what)
+        return Val(self.lo or "lo" in f, self.hi or "hi" in f, self.id, self.what, self.src, self.guards)
 
     def __repr__(self):
         return "v%d[%s%s]" % (self.id, ">=0 " if self.lo else "", "<size" if self.hi else "")
@@ -65,11 +73,32 @@ def facts(p, truth):
     return out
 
 
-def join(a, b):
+def _pairs(fct):
+    return frozenset((vid, k) for vid, ks in fct.items() for k in ks)
+
+
+CLAMP_PREDS = []   # stack of sets collecting (value id, bound) under which a constant replaces a value
+
+
+def join(a, b, fa=None, fb=None):
+    """value after a two-armed selection; fa / fb: the facts that hold in the arm of a / of b"""
+    pa, pb = _pairs(fa or {}), _pairs(fb or {})
     if isinstance(a, Val) and isinstance(b, Val):
-        if a.id == b.id and a.lo == b.lo and a.hi == b.hi:
+        if a.id == b.id and a.lo == b.lo and a.hi == b.hi and a.src == b.src and a.guards == b.guards:
             return a
-        return Val(a.lo and b.lo, a.hi and b.hi, what="join")
+        ga = (a.guards | pa) if INCOMING in a.src else None
+        gb = (b.guards | pb) if INCOMING in b.src else None
+        if ga is not None and gb is not None:
+            guards = ga & gb
+        else:
+            guards = ga if ga is not None else (gb or frozenset())
+        # a pure constant replaces the value in one arm: the other arm's facts are the no-clamp condition
+        if CLAMP_PREDS:
+            if a.src == {CONST} and INCOMING in b.src:
+                CLAMP_PREDS[-1] |= pb
+            if b.src == {CONST} and INCOMING in a.src:
+                CLAMP_PREDS[-1] |= pa
+        return Val(a.lo and b.lo, a.hi and b.hi, what="join", src=a.src | b.src, guards=guards)
     if a is b:
         return a
     return Val(what="join of non-scalars")
@@ -88,6 +117,9 @@ class ClampLoop:
         self.upper = set()   # locals initialised to size - <positive literal>
         self.env = {}
         self.mem = {}
+        self.last_store = {}
+        self.ptr_names = {p["id"]: p.get("name") for p in params.values()
+                          if "*" in p.get("type", {}).get("qualType", "")}
         body = tu.body(fname)
         for n in cfacts.walk(body):
             if n.get("kind") == "VarDecl":
@@ -159,14 +191,14 @@ class ClampLoop:
         v = self._num(n)
         if v is not None:
             # 0 <= size - eps is the stated assumption size >= 1
-            return Val(v >= 0, v == 0, what="literal %g" % v)
+            return Val(v >= 0, v == 0, what="literal %g" % v, src=(CONST,))
         if k == "DeclRefExpr":
             rid = self._ref(n)
             if rid in self.env:
                 return self.env[rid]
             if rid in self.upper:
-                return Val(True, True, what="upper bound")
-            return Val(what=(n.get("referencedDecl") or {}).get("name", "?"))
+                return Val(True, True, what="upper bound", src=(CONST,))
+            return Val(what=(n.get("referencedDecl") or {}).get("name", "?"), src=(CONST,))
         if k == "ArraySubscriptExpr":
             base, idx = cfacts.kids(n)
             key = (self._ref(base), self.tu.text_of(idx))
@@ -183,33 +215,34 @@ class ClampLoop:
             if op == ",":
                 self.eval(l)
                 return self.eval(r)
-            self.eval(l)
-            self.eval(r)
+            lv, rv = self.eval(l), self.eval(r)
             if self._is_upper_expr(n):
-                return Val(True, True, what="upper bound")
-            return Val(what="arithmetic")
+                return Val(True, True, what="upper bound", src=(CONST,))
+            return Val(what="arithmetic", src=self._arith_src(lv, rv))
         if k == "UnaryOperator" and n.get("opcode") == "!":
             return Comb("not", [self._as_pred(self.eval(cfacts.kids(n)[0]))])
         if k == "ConditionalOperator":
             c, a, b = cfacts.kids(n)
             p = self._as_pred(self.eval(c))
-            av, bv = self._under(facts(p, True), a), self._under(facts(p, False), b)
-            return join(av, bv)
+            fa, fb = facts(p, True), facts(p, False)
+            av, bv = self._under(fa, a), self._under(fb, b)
+            return join(av, bv, fa, fb)
         if k == "CallExpr":
             ks = cfacts.kids(n)
             name = (cfacts.strip(ks[0]).get("referencedDecl") or {}).get("name")
             args = [self.eval(a) for a in ks[1:]]
             if name in ("fmax", "fmaxf", "MAX") and len(args) == 2 and all(isinstance(a, Val) for a in args):
-                return Val(args[0].lo or args[1].lo, args[0].hi and args[1].hi, what="fmax")
+                return Val(args[0].lo or args[1].lo, args[0].hi and args[1].hi, what="fmax",
+                           src=args[0].src | args[1].src)
             if name in ("fmin", "fminf", "MIN") and len(args) == 2 and all(isinstance(a, Val) for a in args):
-                return Val(args[0].lo and args[1].lo, args[0].hi or args[1].hi, what="fmin")
+                return Val(args[0].lo and args[1].lo, args[0].hi or args[1].hi, what="fmin",
+                           src=args[0].src | args[1].src)
             for a in ks[1:]:
                 if self._ref(a) in self.ptr_params:
                     raise AnalysisError("%s: `%s` hands a tracked array to a callee" % (self.fname, self.tu.text_of(n)))
-            return Val(what="call %s" % name)
-        for c in cfacts.kids(n):
-            self.eval(c)
-        return Val(what=k)
+            return Val(what="call %s" % name, src=self._arith_src(*args))
+        vs = [self.eval(c) for c in cfacts.kids(n)]
+        return Val(what=k, src=self._arith_src(*vs))
 
     def _under(self, fct, node):
         """evaluate node with the values mentioned by `fct` refined"""
@@ -220,6 +253,14 @@ class ClampLoop:
             return self.eval(node)
         finally:
             self.env, self.mem = saved_env, saved_mem
+
+    @staticmethod
+    def _arith_src(*vals):
+        """arithmetic on a possibly non-finite incoming element is itself possibly non-finite (0 * inf)"""
+        for v in vals:
+            if isinstance(v, Val) and (INCOMING in v.src or ARITH in v.src):
+                return (ARITH,)
+        return (CONST,)
 
     @staticmethod
     def _as_pred(v):
@@ -281,15 +322,20 @@ class ClampLoop:
             elif ls.get("kind") == "ArraySubscriptExpr":
                 base, idx = cfacts.kids(ls)
                 self.mem[(self._ref(base), self.tu.text_of(idx))] = v if isinstance(v, Val) else Val(what="predicate")
+                self.last_store[(self._ref(base), self.tu.text_of(idx))] = n
             else:
                 raise AnalysisError("%s: unsupported store target `%s`" % (self.fname, self.tu.text_of(l)))
         elif k == "CompoundAssignOperator" or (k == "UnaryOperator" and n.get("opcode") in ("++", "--")):
             l = cfacts.strip(cfacts.kids(n)[0])
+            old = self.eval(l)
+            rhs = self.eval(cfacts.kids(n)[1]) if len(cfacts.kids(n)) > 1 else None
+            new = Val(what="updated in place by `%s`" % self.tu.text_of(n), src=self._arith_src(old, rhs))
             if l.get("kind") == "DeclRefExpr":
-                self.env[self._ref(l)] = Val(what="updated")
+                self.env[self._ref(l)] = new
             elif l.get("kind") == "ArraySubscriptExpr":
                 base, idx = cfacts.kids(l)
-                self.mem[(self._ref(base), self.tu.text_of(idx))] = Val(what="updated in place")
+                self.mem[(self._ref(base), self.tu.text_of(idx))] = new
+                self.last_store[(self._ref(base), self.tu.text_of(idx))] = n
         elif k == "IfStmt":
             ks = cfacts.kids(n)
             p = self._as_pred(self.eval(ks[0]))
@@ -303,11 +349,16 @@ class ClampLoop:
                     self.stmt(body)
                 outs.append((self.env, self.mem))
             (e1, m1), (e2, m2) = outs
-            self.env = {k2: join(e1[k2], e2[k2]) for k2 in e1 if k2 in e2}
-            self.mem = {k2: join(m1[k2], m2[k2]) for k2 in set(m1) | set(m2)
+            f1, f2 = facts(p, True), facts(p, False)
+            self.env = {k2: join(e1[k2], e2[k2], f1, f2) for k2 in e1 if k2 in e2}
+            self.mem = {k2: join(m1[k2], m2[k2], f1, f2) for k2 in set(m1) | set(m2)
                         if k2 in m1 and k2 in m2}
             for k2 in (set(m1) ^ set(m2)):
-                self.mem[k2] = Val(what="stored on one branch only")
+                # touched in one arm only: in the other arm the element still holds its incoming value
+                if k2 in m1:
+                    self.mem[k2] = join(m1[k2], Val(what="untouched element"), f1, f2)
+                else:
+                    self.mem[k2] = join(Val(what="untouched element"), m2[k2], f1, f2)
         elif k in ("NullStmt",):
             pass
         elif k in ("ForStmt", "WhileStmt", "DoStmt", "SwitchStmt", "GotoStmt", "ReturnStmt", "BreakStmt",
@@ -318,13 +369,33 @@ class ClampLoop:
             self.eval(n)
 
     def run(self):
-        """-> list of (index text, Val, store text, line) for the final value stored per element of the array"""
+        """-> list of (index text, Val, store text, line) for the final value stored per element of the array.
+        Afterwards self.companions holds, for every other pointer parameter (the derivative arrays that are
+        clamped along with the index): (array name, index text, final Val or None when never stored,
+        store text, line) and self.clamp_preds the bounds under which a constant replaced a value."""
         out = []
+        self.companions = []
+        self.clamp_preds = set()
         for loop in self.loops:
-            self.env, self.mem = {}, {}
+            self.env, self.mem, self.last_store = {}, {}, {}
+            CLAMP_PREDS.append(set())
             ks = cfacts.kids(loop)
             body = ks[-1]
-            self.stmt(body)
+            try:
+                self.stmt(body)
+            finally:
+                self.clamp_preds |= CLAMP_PREDS.pop()
+            idx_texts = {idx for (arr, idx) in self.last_store if arr == self.arr}
+            for pid, pname in sorted(self.ptr_names.items(), key=lambda kv: str(kv[1])):
+                if pid == self.arr:
+                    continue
+                stored = [(a, i) for (a, i) in self.last_store if a == pid]
+                if not stored:
+                    for i in sorted(idx_texts):
+                        self.companions.append((pname, i, None, "", self.tu.line_of(loop)))
+                for a, i in stored:
+                    st = self.last_store[(a, i)]
+                    self.companions.append((pname, i, self.mem.get((a, i)), self.tu.text_of(st), self.tu.line_of(st)))
             last = {}
             for n in cfacts.walk(body):
                 if n.get("kind") == "BinaryOperator" and n.get("opcode") == "=":
